@@ -29,11 +29,27 @@ def fold_parse_cmd(repo, request, state=None, custom=None, hdr_ver=0):
     c2, pick = repo.find_method(dci, "pick_hdr_ver")
     if setm is None or pick is None:
         raise AnalysisError("DATAInterface.set_hdr_ver / pick_hdr_ver vanished")
-    st = {"running": False, "ready": True, "pwr_meas": Opaque("pwr_meas"), "tx_power_base": 50}
+    st = {"running": False, "ready": True, "pwr_meas": Opaque("pwr_meas"), "tx_power_base": 50, "tx_att_base": 0}
     st.update(state or {})
     env = {REQ: list(request), "self.trx.data_if._hdr_ver": hdr_ver}
     for k, v in st.items():
         env["self.trx." + k] = v
+    # read-only properties of the transceiver that are functions of the modelled state (tx_power, ...)
+    try:
+        tci = repo.need_class("fake_trx", "FakeTRX")        # the concrete transceiver the toolkit instantiates
+    except AnalysisError:
+        tci = repo.need_class("transceiver", "Transceiver")
+    for c_ in reversed(repo.mro(tci)):
+        for nm_, m_ in c_.methods.items():
+            if nm_ in st or not any(getattr(d_, "id", None) == "property" for d_ in m_.decorator_list):
+                continue
+            try:
+                pe = Ev(repo, c_.mod, env={"self." + k: v for k, v in st.items()}, self_cls=tci)
+                r_ = pe.run_block(m_.body)
+                if isinstance(r_, tuple):
+                    env["self.trx." + nm_] = r_[1]
+            except (Unknown, Raised):
+                pass
     calls = []
     dstate = {"self._hdr_ver": hdr_ver}
 
@@ -129,7 +145,7 @@ def fold_fake_cmd(repo, request, state=None):
         raise AnalysisError("FakeTRX.ctrl_cmd_handler does not fold for %s: %s" % (" ".join(request), ex))
     except Raised as ex:
         f = Fold(None, calls, e.env, raised=ex.cls)
-        f.changed = {}
+        f.changed = {k: v for k, v in e.env.items() if isinstance(k, str) and k.startswith("self.") and before.get(k, "<unset>") != v}
         return f
     ret = r[1] if isinstance(r, tuple) else None
     f = Fold(ret, calls, e.env)
